@@ -246,6 +246,7 @@ func (e *Engine) buildReplay(r *FnResult, o *Obl, smt string) *ReplayFile {
 	var preds []*MVal
 	sig := c.fobj.Type().(*types.Signature)
 	if o.Kind == "post" {
+		x.lenient = true
 		for i, rt := range o.ResultTerms {
 			if i < sig.Results().Len() {
 				preds = append(preds, x.extract(rt, sig.Results().At(i).Type(), 0))
